@@ -170,7 +170,7 @@ pub fn main(ctx: &Ctx) {
     ctx.assume("clean stops only (drop of the engine at an operation boundary); crash points are C01");
     ctx.assume("fsync policy Never (irrelevant for clean stops); scratch directory on tmpfs");
     run_committed_replays(ctx, &C02);
-    run_pbt(ctx, &C02, ctx.tier.pick(8_000, 200_000));
+    run_pbt(ctx, &C02, ctx.tier.pick(150_000, 3_000_000));
 }
 
 pub fn replay(ctx: &Ctx, v: &serde_json::Value) -> Option<i32> {
